@@ -7,6 +7,7 @@ import (
 	"go/types"
 	"sort"
 	"strings"
+	"tinkverif/bounds"
 
 	"golang.org/x/tools/go/ssa"
 
@@ -144,6 +145,17 @@ func c03FixedLen(c *Ctx) {
 						}
 					}
 				}
+			}
+			if !good {
+				// by arithmetic: the facts at the call, the CutPrefix/re-slicing relations
+				// and the constructor-established field invariants (x.size == len(x.prefix)+64)
+				// entail len(sig) == 64
+				cx := bounds.NewCtx(f)
+				facts := append(cx.FactsToLin(guard.InstrFacts(call)), fieldLenFacts(p, cx, f)...)
+				d := cx.LenOf(sig).Add(bounds.Konst(64), -1)
+				ge, _ := cx.Entails(facts, d)
+				le, _ := cx.Entails(facts, bounds.Konst(0).Add(d, -1))
+				good = ge && le
 			}
 			r.Check(good, "C03.fixedlen", key, p.Pos(call.Pos()), "ed25519.Verify is reached without a dominating len(signature) == 64 check on the same bytes", "dominated by len(sig) == ed25519.SignatureSize")
 		}
@@ -692,7 +704,244 @@ func c03SaltBinding(c *Ctx) {
 					}
 				}
 			})
-			r.Check(good, "C03.saltbinding", key, p.FuncPos(m), "PSSOptions.SaltLength is not the key's configured salt length", "PSSOptions{SaltLength: recv.saltLength}")
+			how := "PSSOptions{SaltLength: recv.saltLength}"
+			if !good {
+				// by provenance: the options handed to SignPSS/VerifyPSS — built here, in the
+				// constructor or in a helper, possibly kept in a field set only by
+				// constructors — carry the constructor's saltLength parameter
+				good, how = c03SaltProvenance(p, m)
+			}
+			r.Check(good, "C03.saltbinding", key, p.FuncPos(m), "PSSOptions.SaltLength is not the key's configured salt length", how)
 		}
 	}
+}
+
+// c03SaltProvenance: every *rsa.PSSOptions handed to rsa.SignPSS / rsa.VerifyPSS
+// in m has, as its SaltLength, the saltLength parameter of a New_RSA_SSA_PSS_*
+// constructor — followed through helpers, through fields that only fresh
+// composite literals set, and through the options object built elsewhere.
+func c03SaltProvenance(p *core.Program, m *ssa.Function) (bool, string) {
+	pkgFns := func() []*ssa.Function {
+		var out []*ssa.Function
+		for _, g := range p.SortedFuncs(core.Product) {
+			if g.Pkg == m.Pkg {
+				out = append(out, g)
+			}
+		}
+		return out
+	}()
+	// no SaltLength store on an options object that is not being built
+	mutated := false
+	for _, g := range pkgFns {
+		allInstrs(g, func(ins ssa.Instruction) {
+			if base, fld, _, ok := guard.StoreField(ins); ok && fld == "SaltLength" && core.TypeID(base.Type()) == "crypto/rsa.PSSOptions" {
+				if _, fresh := guard.Strip(base).(*ssa.Alloc); !fresh {
+					mutated = true
+				}
+			}
+		})
+	}
+	if mutated {
+		return false, ""
+	}
+	// values stored into field idx of struct type st, all in fresh literals
+	fieldStores := func(st types.Type, idx int) ([]ssa.Value, bool) {
+		var vals []ssa.Value
+		ok := true
+		for _, g := range pkgFns {
+			allInstrs(g, func(ins ssa.Instruction) {
+				fa, isFA := ins.(*ssa.FieldAddr)
+				if !isFA || fa.Field != idx {
+					return
+				}
+				pt, isP := fa.X.Type().Underlying().(*types.Pointer)
+				if !isP || !types.Identical(pt.Elem(), st) {
+					return
+				}
+				_, fresh := guard.Strip(fa.X).(*ssa.Alloc)
+				for _, ref := range *fa.Referrers() {
+					switch y := ref.(type) {
+					case *ssa.Store:
+						if y.Addr == ssa.Value(fa) {
+							if !fresh {
+								ok = false
+							}
+							vals = append(vals, y.Val)
+						}
+					case *ssa.UnOp, *ssa.DebugRef:
+					default:
+						ok = false
+					}
+				}
+			})
+		}
+		return vals, ok && len(vals) > 0
+	}
+	fieldOfLoad := func(v ssa.Value) (types.Type, int, bool) {
+		u, isU := guard.Strip(v).(*ssa.UnOp)
+		if !isU || u.Op != token.MUL {
+			return nil, 0, false
+		}
+		fa, isFA := u.X.(*ssa.FieldAddr)
+		if !isFA {
+			return nil, 0, false
+		}
+		pt, isP := fa.X.Type().Underlying().(*types.Pointer)
+		if !isP {
+			return nil, 0, false
+		}
+		return pt.Elem(), fa.Field, true
+	}
+	var configured func(v ssa.Value, depth int) bool
+	configured = func(v ssa.Value, depth int) bool {
+		if depth > 4 {
+			return false
+		}
+		v = guard.Strip(v)
+		if prm, isP := v.(*ssa.Parameter); isP {
+			g := prm.Parent()
+			if g == nil {
+				return false
+			}
+			if strings.HasPrefix(g.Name(), "New_RSA_SSA_PSS_") {
+				return prm.Name() == "saltLength"
+			}
+			if g.Object() == nil || g.Object().Exported() || g.Parent() != nil {
+				return false
+			}
+			idx := -1
+			for i, q := range g.Params {
+				if q == prm {
+					idx = i
+				}
+			}
+			n, all := 0, true
+			for _, h := range pkgFns {
+				allInstrs(h, func(ins ssa.Instruction) {
+					if c2, isC := ins.(ssa.CallInstruction); isC && c2.Common().StaticCallee() == g && idx >= 0 && idx < len(c2.Common().Args) {
+						n++
+						if !configured(c2.Common().Args[idx], depth+1) {
+							all = false
+						}
+					}
+				})
+			}
+			return n > 0 && all
+		}
+		if st, idx, isL := fieldOfLoad(v); isL {
+			vals, ok := fieldStores(st, idx)
+			if !ok {
+				return false
+			}
+			for _, sv := range vals {
+				if !configured(sv, depth+1) {
+					return false
+				}
+			}
+			return true
+		}
+		return false
+	}
+	var salts func(v ssa.Value, depth int) ([]ssa.Value, bool)
+	salts = func(v ssa.Value, depth int) ([]ssa.Value, bool) {
+		if depth > 4 {
+			return nil, false
+		}
+		v = guard.Strip(v)
+		switch x := v.(type) {
+		case *ssa.Alloc:
+			var out []ssa.Value
+			for _, ref := range *x.Referrers() {
+				if fa, isFA := ref.(*ssa.FieldAddr); isFA {
+					for _, r2 := range *fa.Referrers() {
+						if base, fld, val, ok := guard.StoreField(r2); ok && fld == "SaltLength" && guard.Strip(base) == ssa.Value(x) {
+							out = append(out, val)
+						}
+					}
+				}
+			}
+			return out, len(out) == 1
+		case *ssa.Phi:
+			var out []ssa.Value
+			for _, e := range x.Edges {
+				if guard.IsNilConst(e) {
+					continue
+				}
+				sv, ok := salts(e, depth+1)
+				if !ok {
+					return nil, false
+				}
+				out = append(out, sv...)
+			}
+			return out, len(out) > 0
+		}
+		if hc, hi := guard.CallOf(v); hc != nil {
+			g := hc.Call.StaticCallee()
+			if g == nil || g.Blocks == nil || g.Pkg != m.Pkg {
+				return nil, false
+			}
+			var out []ssa.Value
+			for _, ret := range guard.SuccessReturns(g) {
+				if hi >= len(ret.Results) {
+					return nil, false
+				}
+				sv, ok := salts(ret.Results[hi], depth+1)
+				if !ok {
+					return nil, false
+				}
+				out = append(out, sv...)
+			}
+			if len(guard.SuccessReturns(g)) == 0 {
+				for _, ret := range guard.Returns(g) {
+					sv, ok := salts(ret.Results[hi], depth+1)
+					if !ok {
+						return nil, false
+					}
+					out = append(out, sv...)
+				}
+			}
+			return out, len(out) > 0
+		}
+		if st, idx, isL := fieldOfLoad(v); isL {
+			vals, ok := fieldStores(st, idx)
+			if !ok {
+				return nil, false
+			}
+			var out []ssa.Value
+			for _, fv := range vals {
+				sv, ok := salts(fv, depth+1)
+				if !ok {
+					return nil, false
+				}
+				out = append(out, sv...)
+			}
+			return out, len(out) > 0
+		}
+		return nil, false
+	}
+	n := 0
+	good := true
+	allInstrs(m, func(ins ssa.Instruction) {
+		call, ok := ins.(*ssa.Call)
+		if !ok {
+			return
+		}
+		nme := guard.CalleeName(&call.Call)
+		if nme != "crypto/rsa.SignPSS" && nme != "crypto/rsa.VerifyPSS" {
+			return
+		}
+		n++
+		opts := call.Call.Args[len(call.Call.Args)-1]
+		sv, ok := salts(opts, 0)
+		if !ok {
+			good = false
+			return
+		}
+		for _, v := range sv {
+			if !configured(v, 0) {
+				good = false
+			}
+		}
+	})
+	return good && n > 0, fmt.Sprintf("the options of %d SignPSS/VerifyPSS call(s) carry the constructor's saltLength parameter (followed through fields set only in constructor literals and through helpers)", n)
 }
